@@ -2,8 +2,11 @@ pub fn bzr_url_to_git_url(
     location: &str,
 ) -> Result<(String, Option<String>, Option<String>), dromedary::urlutils::Error> {
     let (target_url, target_params) = dromedary::urlutils::split_segment_parameters(location)?;
-    let branch = target_params.get("branch").map(|s| s.to_string());
-    let ref_ = target_params.get("ref").map(|s| s.to_string());
+    // git_url_to_bzr_url percent-escapes both values when it writes them.
+    let unescape =
+        |s: &str| dromedary::urlutils::unescape(s).unwrap_or_else(|_| s.to_string());
+    let branch = target_params.get("branch").map(|s| unescape(s));
+    let ref_ = target_params.get("ref").map(|s| unescape(s));
     Ok((target_url.to_string(), branch, ref_))
 }
 
